@@ -30,10 +30,14 @@ def gen_file(rng):
     recs = []
     for i in range(rng.randrange(0, 60)):
         c = rng.random()
-        if c < 0.5:
+        if c < 0.4:
             eid = (rng.choice(SUBS) << 16) | (rng.getrandbits(14) << 2)
-        elif c < 0.8:
+        elif c < 0.6:
             eid = (rng.choice(CLASSES) << 24) | (rng.getrandbits(22) << 2)
+        elif c < 0.85:
+            # boundary values of every field below the class byte
+            eid = (rng.choice(CLASSES) << 24) | (rng.choice((0x00, 0x01, 0x7f, 0x80, 0xfe, 0xff)) << 16) \
+                | rng.choice((0x0000, 0x0004, 0xfffc, 0x8000))
         else:
             eid = rng.getrandbits(30) << 2
         recs.append(wire.record(1 + i * 3, [rng.getrandbits(64) for _ in range(4)], rng.choice(tids),
